@@ -2,7 +2,7 @@
 (fail-closed).  Run on every check against /repo's working tree."""
 import os
 
-REPO = os.environ.get('QUANTITY_REPO', '/repo')
+REPO = (os.environ.get('QUANTITY_REPO') or '/repo')
 
 
 def _rounding():
@@ -28,6 +28,11 @@ def _mconv():
 def _cstack():
     from . import cstack
     return cstack.generate(os.path.join(REPO, 'src/quantity/__init__.py'))
+
+
+def _effects():
+    from . import effects
+    return effects.generate(os.path.join(REPO, 'src/quantity/__init__.py'))
 
 
 def _temptable():
@@ -61,6 +66,7 @@ GENERATORS = [
     ('OpsImpl', _oplayer),
     ('MoneyConvImpl', _mconv),
     ('ConvStackImpl', _cstack),
+    ('EffectsImpl', _effects),
     ('TempTable', _temptable),
     ('IsoTable', _isotable),
     ('Catalogue', _catalogue),
